@@ -701,8 +701,12 @@ class Block(object):
         sync_prop = 'wcs'
         for net in sync_mems:
             wires_to_check = list(net.args)
+            checked = set()  # a combinational loop must not keep this walk going forever
             while len(wires_to_check):
                 wire = wires_to_check.pop()
+                if wire in checked:
+                    continue
+                checked.add(wire)
                 if isinstance(wire, (Input, Const)):
                     continue
                 src_net = wire_src_dict[wire]
